@@ -63,6 +63,12 @@ pub trait Alg: Sync + Send + 'static {
     fn obs_len(_o: &Self::Obs) -> Option<usize> {
         None
     }
+    /// Is `got` an acceptable result for the range holding `xs`?  Default: equal to the fold.  Items whose
+    /// merge may return either of two elements that compare equal override it ("one of the minimal
+    /// elements of the range", never an element that is not in the range).
+    fn accept(got: &Self::Obs, xs: &[Self::E]) -> bool {
+        *got == Self::fold(xs)
+    }
     /// Does p hold on the fold of model[l..=r]?  Default: fold and test; algebras whose predicates only
     /// look at cheap features override it (the size sweep runs searches on arrays of 4097 elements).
     fn holds_on(p: &Pred, model: &[Self::E], l: usize, r: usize) -> bool {
@@ -591,7 +597,7 @@ fn enc_i64(v: i64, out: &mut Vec<u8>) {
 }
 
 macro_rules! minmax_add_alg {
-    ($alg:ident, $item:ident, $name:expr, $pick:ident, $pred:ident, $cmp:tt) => {
+    ($alg:ident, $item:ident, $name:expr, $pick:ident, $pred:ident, $cmp:tt, $elems:expr, $mods:expr) => {
         pub struct $alg;
         impl Alg for $alg {
             type T = $item<i64>;
@@ -603,18 +609,18 @@ macro_rules! minmax_add_alg {
                 3
             }
             fn elem(idx: usize, _f: &mut u32) -> i64 {
-                [0, 1, -2][idx]
+                $elems[idx]
             }
             fn item(e: &i64) -> $item<i64> {
                 $item::new(*e)
             }
             fn dirty_item(e: &i64) -> Option<$item<i64>> {
                 let mut t = $item::new(*e);
-                t.md = 3;
+                t.md = $mods[0];
                 Some(t)
             }
             fn mods() -> Vec<i64> {
-                vec![1, -1, 2]
+                $mods.to_vec()
             }
             fn apply(e: &mut i64, m: &i64) {
                 *e += *m;
@@ -644,8 +650,12 @@ macro_rules! minmax_add_alg {
         }
     };
 }
-minmax_add_alg!(AlgMinAdd, MinAdd, "MinAdd<i64>", min, VLe, <=);
-minmax_add_alg!(AlgMaxAdd, MaxAdd, "MaxAdd<i64>", max, VGe, >=);
+minmax_add_alg!(AlgMinAdd, MinAdd, "MinAdd<i64>", min, VLe, <=, [0, 1, -2], [1, -1, 2]);
+minmax_add_alg!(AlgMaxAdd, MaxAdd, "MaxAdd<i64>", max, VGe, >=, [0, 1, -2], [1, -1, 2]);
+// elements equal to the extreme values of the type (which are also the identity of min / max), with
+// modifiers that move away from the extreme so that the plain array never overflows
+minmax_add_alg!(AlgMinAddExt, MinAdd, "MinAdd<i64> at i64::MAX", min, VLe, <=, [i64::MAX, 5, i64::MAX - 1], [-1, -3, -1]);
+minmax_add_alg!(AlgMaxAddExt, MaxAdd, "MaxAdd<i64> at i64::MIN", max, VGe, >=, [i64::MIN, -5, i64::MIN + 1], [1, 3, 1]);
 
 pub struct AlgSumAdd;
 impl Alg for AlgSumAdd {
@@ -781,3 +791,167 @@ where
         A::encode_elem(e, out)
     }
 }
+
+// ------------------------------------------------------------------------------------------------
+// Flip: a LAZY item whose modifier carries no data (M = ()): words over {0,1}, modify = complement.
+
+#[derive(Clone, Debug, PartialEq, Default)]
+pub struct Flip {
+    pub len: u8,
+    pub bits: u64,
+    pub pending: bool,
+}
+
+impl SegtreeItem<()> for Flip {
+    fn merge(l: &Self, r: &Self) -> Self {
+        let len = (l.len as u32 + r.len as u32).min(64) as u8;
+        let bits = if l.len >= 64 { l.bits } else { (l.bits | (r.bits << l.len)) & mask(len) };
+        Flip { len, bits, pending: false }
+    }
+    fn modify(&mut self, _m: &()) {
+        self.bits = !self.bits & mask(self.len);
+        if self.len >= 2 {
+            self.pending = !self.pending;
+        }
+    }
+    fn push(&mut self, l: &mut Self, r: &mut Self) {
+        if self.pending {
+            l.modify(&());
+            r.modify(&());
+            self.pending = false;
+        }
+    }
+}
+
+pub struct AlgFlip;
+
+impl Alg for AlgFlip {
+    type T = Flip;
+    type M = ();
+    type E = u8;
+    type Obs = (u8, u64);
+    const NAME: &'static str = "Flip(words over {0,1}; data-less complement modifier, M = ())";
+    fn n_elems() -> usize {
+        2
+    }
+    fn elem(idx: usize, _f: &mut u32) -> u8 {
+        idx as u8
+    }
+    fn item(e: &u8) -> Flip {
+        Flip { len: 1, bits: *e as u64, pending: false }
+    }
+    fn dirty_item(e: &u8) -> Option<Flip> {
+        Some(Flip { len: 1, bits: *e as u64, pending: true })
+    }
+    fn mods() -> Vec<()> {
+        vec![()]
+    }
+    fn apply(e: &mut u8, _m: &()) {
+        *e ^= 1;
+    }
+    fn fold(xs: &[u8]) -> (u8, u64) {
+        AlgW::fold(xs)
+    }
+    fn observe(t: &Flip) -> (u8, u64) {
+        (t.len, t.bits)
+    }
+    fn obs_len(o: &(u8, u64)) -> Option<usize> {
+        Some(o.0 as usize)
+    }
+    fn preds(n: usize) -> Vec<Pred> {
+        AlgW::preds(n)
+    }
+    fn holds(p: &Pred, o: &(u8, u64)) -> bool {
+        AlgW::holds(p, o)
+    }
+    fn encode(t: &Flip, out: &mut Vec<u8>) {
+        out.push(t.len);
+        out.push(t.pending as u8);
+        out.extend_from_slice(&t.bits.to_le_bytes()[..2]);
+    }
+    fn encode_elem(e: &u8, out: &mut Vec<u8>) {
+        out.push(*e);
+    }
+}
+
+// ------------------------------------------------------------------------------------------------
+// Min / Max over records that are ordered and compared BY KEY ONLY: equal keys are different elements.
+// The merge may return either of two minimal records, but never a record that is not in the range.
+
+#[derive(Clone, Copy, Debug)]
+pub struct Rec {
+    pub key: u8,
+    pub id: u32,
+}
+impl PartialEq for Rec {
+    fn eq(&self, o: &Rec) -> bool {
+        self.key == o.key
+    }
+}
+impl PartialOrd for Rec {
+    fn partial_cmp(&self, o: &Rec) -> Option<std::cmp::Ordering> {
+        self.key.partial_cmp(&o.key)
+    }
+}
+impl rlib_num_traits::MinMax for Rec {
+    const MIN: Rec = Rec { key: 0, id: 0 };
+    const MAX: Rec = Rec { key: 255, id: 0 };
+}
+
+macro_rules! rec_alg {
+    ($alg:ident, $item:ident, $name:expr, $best:ident, $pred:ident, $cmp:tt) => {
+        pub struct $alg;
+        impl Alg for $alg {
+            type T = $item<Rec>;
+            type M = ();
+            type E = (u8, u32);
+            type Obs = (u8, u32);
+            const NAME: &'static str = $name;
+            fn n_elems() -> usize {
+                2
+            }
+            fn elem(idx: usize, fresh: &mut u32) -> (u8, u32) {
+                *fresh += 1;
+                (idx as u8 + 1, *fresh)
+            }
+            fn item(e: &(u8, u32)) -> $item<Rec> {
+                $item::new(Rec { key: e.0, id: e.1 })
+            }
+            fn mods() -> Vec<()> {
+                vec![()]
+            }
+            fn apply(_e: &mut (u8, u32), _m: &()) {}
+            fn fold(xs: &[(u8, u32)]) -> (u8, u32) {
+                // one acceptable answer (used only for display): the first best record
+                let k = xs.iter().map(|e| e.0).$best().unwrap();
+                *xs.iter().find(|e| e.0 == k).unwrap()
+            }
+            fn accept(got: &(u8, u32), xs: &[(u8, u32)]) -> bool {
+                let k = xs.iter().map(|e| e.0).$best().unwrap();
+                got.0 == k && xs.contains(got)
+            }
+            fn observe(t: &$item<Rec>) -> (u8, u32) {
+                (t.v.key, t.v.id)
+            }
+            fn preds(_n: usize) -> Vec<Pred> {
+                (0..=3).map(|t| Pred::$pred(t)).collect()
+            }
+            fn holds(p: &Pred, o: &(u8, u32)) -> bool {
+                match p {
+                    Pred::$pred(t) => (o.0 as i64) $cmp *t,
+                    _ => unreachable!(),
+                }
+            }
+            fn encode(t: &$item<Rec>, out: &mut Vec<u8>) {
+                out.push(t.v.key);
+                out.extend_from_slice(&(t.v.id as u16).to_le_bytes());
+            }
+            fn encode_elem(e: &(u8, u32), out: &mut Vec<u8>) {
+                out.push(e.0);
+                out.extend_from_slice(&(e.1 as u16).to_le_bytes());
+            }
+        }
+    };
+}
+rec_alg!(AlgMinRec, Min, "Min<record compared by key only>", min, VLe, <=);
+rec_alg!(AlgMaxRec, Max, "Max<record compared by key only>", max, VGe, >=);
